@@ -30,6 +30,7 @@ import (
 	"sync"
 	"time"
 
+	"github.com/Cloud-Foundations/keymaster/lib/simplestorage"
 	"github.com/go-jose/go-jose/v4"
 	"golang.org/x/crypto/ssh"
 )
@@ -538,42 +539,69 @@ func verifSSHFingerprintHex(pub crypto.PublicKey) string {
 	return verifSHA256Hex(p.Marshal())
 }
 
-// ---------------------------------------------------------------- fake STS
+// ---------------------------------------------------------------- fake internet
 
-// verifFakeSTS replaces the process-wide default HTTP transport so that
-// requests to sts.<region>.amazonaws.com are answered locally (the external
-// party of the cloud-role path).  Everything else is refused: the sandbox has
-// no network and nothing else should be dialled.
-type verifFakeSTS struct {
-	mu    sync.Mutex
-	Calls int
+// verifFakeNet replaces the process-wide default HTTP transport: requests are
+// routed by host name to in-process handlers standing in for the external
+// parties (AWS STS, Okta, the OAuth2 identity provider).  Everything else is
+// refused: the sandbox has no network and nothing else should be dialled.
+type verifFakeNet struct {
+	mu       sync.Mutex
+	handlers map[string]http.Handler
+	Calls    map[string]int
 }
 
-var verifSTS = &verifFakeSTS{}
-var verifSTSOnce sync.Once
+var verifNet = &verifFakeNet{handlers: map[string]http.Handler{}, Calls: map[string]int{}}
+var verifNetOnce sync.Once
 
-func (f *verifFakeSTS) RoundTrip(r *http.Request) (*http.Response, error) {
-	if !strings.HasPrefix(r.URL.Host, "sts.") || !strings.HasSuffix(r.URL.Host, ".amazonaws.com") {
+func (f *verifFakeNet) Handle(host string, h http.Handler) {
+	verifNetOnce.Do(func() { http.DefaultTransport = verifNet })
+	f.mu.Lock()
+	f.handlers[host] = h
+	f.mu.Unlock()
+}
+
+func (f *verifFakeNet) RoundTrip(r *http.Request) (*http.Response, error) {
+	f.mu.Lock()
+	h := f.handlers[r.URL.Host]
+	f.Calls[r.URL.Host]++
+	f.mu.Unlock()
+	if h == nil {
 		return nil, fmt.Errorf("verif: network is not available (%s)", r.URL.Host)
 	}
-	f.mu.Lock()
-	f.Calls++
-	f.mu.Unlock()
-	// the "signature" of the presigned URL names the caller: X-Verif-Role=<account>:<role>
-	who := r.URL.Query().Get("X-Verif-Role")
 	rec := httptest.NewRecorder()
+	r2 := r.Clone(r.Context())
+	if r2.Body == nil {
+		r2.Body = http.NoBody
+	}
+	r2.RequestURI = r.URL.RequestURI()
+	h.ServeHTTP(rec, r2)
+	res := rec.Result()
+	res.Request = r
+	return res, nil
+}
+
+func (f *verifFakeNet) CallCount(host string) int {
+	f.mu.Lock()
+	defer f.mu.Unlock()
+	return f.Calls[host]
+}
+
+// fake AWS STS: the "signature" of the presigned URL names the caller,
+// X-Verif-Role=<account>:<role>
+func verifSTSHandler(w http.ResponseWriter, r *http.Request) {
+	who := r.URL.Query().Get("X-Verif-Role")
 	if who == "" {
-		rec.WriteHeader(403)
-		return rec.Result(), nil
+		w.WriteHeader(403)
+		return
 	}
 	parts := strings.SplitN(who, ":", 2)
-	fmt.Fprintf(rec, `<GetCallerIdentityResponse xmlns="https://sts.amazonaws.com/doc/2011-06-15/"><GetCallerIdentityResult><Arn>arn:aws:sts::%s:assumed-role/%s/session-1</Arn><UserId>AROAEXAMPLE:session-1</UserId><Account>%s</Account></GetCallerIdentityResult></GetCallerIdentityResponse>`,
+	fmt.Fprintf(w, `<GetCallerIdentityResponse xmlns="https://sts.amazonaws.com/doc/2011-06-15/"><GetCallerIdentityResult><Arn>arn:aws:sts::%s:assumed-role/%s/session-1</Arn><UserId>AROAEXAMPLE:session-1</UserId><Account>%s</Account></GetCallerIdentityResult></GetCallerIdentityResponse>`,
 		parts[0], parts[1], parts[0])
-	return rec.Result(), nil
 }
 
 func verifInstallFakeSTS() {
-	verifSTSOnce.Do(func() { http.DefaultTransport = verifSTS })
+	verifNet.Handle("sts.us-east-1.amazonaws.com", http.HandlerFunc(verifSTSHandler))
 }
 
 var verifPresignSeq int64
@@ -621,3 +649,13 @@ func verifRoleRefreshReq(pub crypto.PublicKey) verifReq {
 	return verifReq{Method: "POST", Path: "/v1/refreshRoleRequestingCert",
 		Form: url.Values{"pubkey": {base64.RawURLEncoding.EncodeToString(der)}}}
 }
+
+// ---------------------------------------------------------------- password backend stand-in
+
+// verifPWFunc is a password backend (an external party) given as a function.
+type verifPWFunc func(user string, password []byte) (bool, error)
+
+func (f verifPWFunc) PasswordAuthenticate(user string, password []byte) (bool, error) {
+	return f(user, password)
+}
+func (f verifPWFunc) UpdateStorage(s simplestorage.SimpleStore) error { return nil }
